@@ -277,7 +277,7 @@ def run_h2(prop, tier, seed, report):
         for (pid, cap, spec, lines, threads, mv) in H2.run_batch(cj, 4):
             stats["executions"] = stats.get("executions", 0) + 1
             found = H2.judge(pid, cap, spec, lines, threads)
-            for tag in ("A", "M", "K", "O"):
+            for tag in ("A", "M", "K", "O", "S"):
                 if mv.get(tag, "").startswith("reject"):
                     found.append((tag, mv[tag][7:]))
             for (k, msg) in found:
@@ -286,7 +286,7 @@ def run_h2(prop, tier, seed, report):
                                   "schedule": spec, "trace_tail": lines[-40:]})
     report["h2"] = stats
     viols, seen = [], set()
-    fails = sorted(fails, key=lambda f: 0 if f["kind"] in ("RT", "deadline") else 1)
+    fails = sorted(fails, key=lambda f: 0 if f["kind"] in ("RT", "deadline") else (2 if f["kind"] == "S" else 1))
     for f in fails:
         key = (f["kind"], re.sub(r"\d+", "#", f["message"])[:80])
         if key in seen:
@@ -302,7 +302,15 @@ def run_h2(prop, tier, seed, report):
                 "ledger": "a tagged value was not received / destroyed / handed back exactly once",
                 "deadline": "a timed call reported Timeout before its deadline",
                 "RT": "a realtime call did not give up after one failed attempt at the internal lock",
+                "S": "the run-time events do not come from the source sites that the pinned role mapping of the protocol model names "
+                     "(the events themselves are accepted by the model: a tie to the source that no longer checks, not a failing input)",
                 "corrupt": "a payload arrived corrupted"}[f["kind"]]
+        if f["kind"] == "S":
+            viols.append({"witness": False, "suite": "H2", "kind": "S", "program": f["program"], "schedule": f["schedule"],
+                          "broken": "%s: %s" % (what, f["message"]),
+                          "header": "capacity %s, threads %s" % (f["program"]["capacity"], " || ".join(f["program"]["threads"])),
+                          "calls": ["schedule: " + f["schedule"]]})
+            continue
         viols.append({"witness": True, "suite": "H2", "kind": f["kind"], "program": f["program"], "schedule": f["schedule"],
                       "monitor": ["%s: %s" % (what, f["message"])], "trace_tail": f["trace_tail"],
                       "header": "capacity %s, threads %s" % (f["program"]["capacity"], " || ".join(f["program"]["threads"])),
